@@ -694,7 +694,7 @@ def _gen_cases(rng, mode):
     elif mode == "thorough":
         rounds, lengths, nseq, maxlen, budget, cap = 4, _LEN_QUICK + _LEN_MORE, 4, 200, 200_000_000, 300
         n_random, n_tuned, n_mal, tiny_rounds = 220, 40, 300, 2
-        n_mid, n_big, n_trail = 120, 24, 240
+        n_mid, n_big, n_trail = 60, 10, 160  # (120 / 24 / 240 made the thorough tier run > 30 min: the model driver dominates)
     else:
         rounds, lengths, nseq, maxlen, budget, cap = 7, _LEN_QUICK + _LEN_MORE[:9], 4, 60, 80_000_000, 64
         n_random, n_tuned, n_mal, tiny_rounds = 200, 36, 300, 3
@@ -746,7 +746,7 @@ def _gen_cases(rng, mode):
         spec = _gen_segs(rng, big, places[i % len(places)])
         trail = _gen_trail(rng) if i % 4 == 3 else None
         under = "tame" if big <= 70000 else rng.choice([None, None, 1000, 4096, 8191])  # model cost: chunks x length
-        cases.append(_gen_file(rng, spec, cls, lv, 2, min(maxlen, 40), budget // 2, 12, trail=trail, endseqs=1, under=under))
+        cases.append(_gen_file(rng, spec, cls, lv, 2, min(maxlen, 25), budget // 2, 12, trail=trail, endseqs=1, under=under))
     for i in range(n_big):
         cls, lv = next(combos)
         # (payloads of ~4 MiB were tried in the thorough tier: one such case costs the MODEL driver 10-16 CPU-minutes - its read()
